@@ -130,6 +130,20 @@ BREAK = [
     ("C20", "ht-from-phase-set", "gaftools/cli/phase.py", "                    phase[gaf_line.query_name].phase_set,\n                    phase[gaf_line.query_name].haplotype,", "                    phase[gaf_line.query_name].haplotype,\n                    phase[gaf_line.query_name].phase_set,"),
     ("C20", "last-row-wins", "gaftools/cli/phase.py", "        if line_elements[0] not in phase:\n            tmp = Node", "        if True:\n            tmp = Node"),
     ("C20", "none-guard", "gaftools/cli/phase.py", 'if in_tsv and phase[gaf_line.query_name].haplotype != "none":', "if in_tsv:"),
+    # --- depth rules added late: R01.8, R04.7, R05.8, R06.7, R07.10, R15.8
+    ("C01", "view-node-end-no-start", "gaftools/cli/view.py", 'end=int(gfa_file[id].tags["SO"][1]) + int(gfa_file[id].tags["LN"][1]),', 'end=int(gfa_file[id].tags["LN"][1]),'),
+    ("C01", "view-ref-rank", "gaftools/cli/view.py", "if gfa_file.contigs[contig] == 0]", "if gfa_file.contigs[contig] != 0]"),
+    ("C04", "id-map-wrong-position", "gaftools/cli/view.py", "            ind_dict[i[0]] = i", "            ind_dict[i[1]] = i"),
+    ("C05", "region-end-first-part", "gaftools/cli/view.py", 'end = [x.split(":")[1].split("-")[-1] for x in regions]', 'end = [x.split(":")[1].split("-")[0] for x in regions]'),
+    ("C05", "region-contig-after-colon", "gaftools/cli/view.py", 'contig = [x.split(":")[0] for x in regions]', 'contig = [x.split(":")[1] for x in regions]'),
+    ("C06", "majority-strict-min", "gaftools/cli/order_gfa.py", "            if most_freq <= count:", "            if most_freq >= count:"),
+    ("C06", "majority-no-reset", "gaftools/cli/order_gfa.py", "        counts = count_sn(graph, comp)\n        most_freq = 0\n", "        counts = count_sn(graph, comp)\n"),
+    ("C07", "s-line-tags-from-third", "gaftools/gfa.py", "                    self.add_node(line[1], line[2], line[3:])", "                    self.add_node(line[1], line[2], line[4:])"),
+    ("C07", "overlap-written-bare", "gaftools/gfa.py", '                overlap = str(n[2]) + "M"\n\n                if n[0] in set_of_nodes:', '                overlap = str(n[2])\n\n                if n[0] in set_of_nodes:'),
+    ("C07", "overlap-read-whole", "gaftools/gfa.py", "                e[4] = int(e[4][:-1])  # getting overlap", "                e[4] = int(e[4][1:])  # getting overlap"),
+    ("C15", "components-no-reset", "gaftools/gfa.py", "        self.set_visited(False)\n        return connected_comp", "        return connected_comp"),
+    ("C15", "component-one-side", "gaftools/gfa.py", "            neighbors = self.nodes[start].neighbors()\n            for n in neighbors:", "            neighbors = self.nodes[start].start\n            for n in neighbors:"),
+    ("C15", "dfs-skips-add", "gaftools/gfa.py", "                dfs_out.add(s)\n                ordered_dfs_out.append(s)\n            else:", "                dfs_out.add(s)\n            else:"),
 ]
 
 TWIN = [
